@@ -84,6 +84,9 @@ theorem ge_def {a b : I64} : a ≥ b ↔ b.val ≤ a.val := Iff.rfl
 
 @[simp] theorem val_ofInt (z : Int) : (ofInt z).val = wrap z := rfl
 @[simp] theorem val_ofNat (n : Nat) : (OfNat.ofNat n : I64).val = wrap n := rfl
+@[simp] theorem val_zero : (0 : I64).val = 0 := by decide
+@[simp] theorem val_one : (1 : I64).val = 1 := by decide
+@[simp] theorem val_negOne : (ofInt (-1)).val = -1 := by decide
 @[simp] theorem val_minInt : minInt.val = -9223372036854775808 := by decide
 @[simp] theorem val_maxInt : maxInt.val = 9223372036854775807 := by decide
 @[simp] theorem val_wadd (a b : I64) : (wadd a b).val = wrap (a.val + b.val) := rfl
